@@ -6,6 +6,7 @@ import (
 	"context"
 	"encoding/json"
 	"fmt"
+	"regexp"
 	"strings"
 	"testing"
 	"time"
@@ -61,18 +62,69 @@ func genCfgSide(r *vh.Rand, ls []KV, min int) []M {
 	return out
 }
 
+// satisfy rewrites the label set so that (most of) the side's positive matchers hold for it, so that the inhibitor
+// really has a firing source and matching targets to decide about
+func satisfy(r *vh.Rand, ms []M, ls []KV) []KV {
+	m := map[string]string{}
+	for _, kv := range ls {
+		m[string(kv.K)] = string(kv.V)
+	}
+	for _, x := range ms {
+		if r.Chance(1, 8) {
+			continue
+		}
+		switch x.T {
+		case 0:
+			m[string(x.N)] = string(x.V)
+		case 2:
+			re, err := regexp.Compile("^(?:" + string(x.V) + ")$")
+			if err != nil {
+				continue
+			}
+			var ok []string
+			for _, v := range append(append([]string{}, semValues...), "prod", "db", "x-1", "ab", "prodx") {
+				if re.MatchString(v) {
+					ok = append(ok, v)
+				}
+			}
+			if len(ok) > 0 {
+				m[string(x.N)] = vh.Pick(r, ok)
+			}
+		}
+	}
+	var out []KV
+	for _, k := range vh.SortedKeys(m) {
+		out = append(out, KV{[]byte(k), []byte(m[k])})
+	}
+	return out
+}
+
 func genCfgCase(r *vh.Rand) Case {
 	c := Case{Kind: "cfg", LS: genLS(r)}
 	k := r.Range(2, 4)
 	for i := 0; i < k; i++ {
 		c.LSS = append(c.LSS, genLS(r))
 	}
-	if r.Chance(1, 3) { // sometimes the source alert is also asked as a target
-		c.LSS = append(c.LSS, c.LS)
-	}
 	c.RSrc = genCfgSide(r, c.LS, 1)
 	c.RTgt = genCfgSide(r, c.LSS[0], 1)
 	c.Rt = genCfgSide(r, c.LSS[r.Intn(len(c.LSS))], 1)
+	if !r.Chance(1, 5) {
+		c.LS = satisfy(r, c.RSrc, c.LS)
+	}
+	for i := range c.LSS {
+		switch r.Intn(4) {
+		case 0, 1:
+			c.LSS[i] = satisfy(r, c.RTgt, c.LSS[i])
+		case 2:
+			c.LSS[i] = satisfy(r, c.RSrc, c.LSS[i]) // looks like a source alert
+		}
+		if r.Chance(1, 3) {
+			c.LSS[i] = satisfy(r, c.Rt, c.LSS[i])
+		}
+	}
+	if r.Chance(1, 3) { // sometimes the source alert is also asked as a target
+		c.LSS = append(c.LSS, c.LS)
+	}
 	return c
 }
 
@@ -213,10 +265,20 @@ func runCfg(t *testing.T, run *vh.Run, c *Case) {
 		gM, wM = append(gM, ih.Mutes(context.Background(), ls)), append(wM, tg && sSrc && !(s && tSrc))
 		routes := root.Match(ls)
 		gR, wR = append(gR, len(routes) == 1 && routes[0].RouteOpts.Receiver == "child"), append(wR, sideHolds(c.Rt, ls))
-		if tg && sSrc {
-			run.Count("config_inhibitor", "target side holds and the source fires")
+		switch {
+		case tg && sSrc && !(s && tSrc):
+			run.Count("config_inhibitor", "muted: target side holds, the source fires")
+		case tg && sSrc:
+			run.Count("config_inhibitor", "not muted: two-sided match")
+		case tg:
+			run.Count("config_inhibitor", "not muted: target side holds, the source alert does not match the source side")
+		default:
+			run.Count("config_inhibitor", "not muted: target side does not hold")
+		}
+		if gR[len(gR)-1] {
+			run.Count("config_route", "child route matches")
 		} else {
-			run.Count("config_inhibitor", "not inhibited")
+			run.Count("config_route", "falls back to the root route")
 		}
 	}
 	ih.Stop()
